@@ -719,11 +719,11 @@ class TimestampConverter:
     @staticmethod
     def from_unix_millis(ms: int | None) -> datetime.datetime | None:
         """Convert Unix timestamp in milliseconds to datetime."""
-        return (
-            datetime.datetime.fromtimestamp(ms / 1000, tz=datetime.UTC)
-            if ms is not None
-            else None
-        )
+        if ms is None:
+            return None
+        # exact arithmetic, the inverse of to_unix_millis: dividing by 1000 as a float is up to a
+        # microsecond off once the quotient needs more bits than a double has (from 2242 on)
+        return _UNIX_EPOCH + datetime.timedelta(milliseconds=ms)
 
 
 @dataclass(frozen=True)
